@@ -28,7 +28,7 @@ Definition ipc_ok (ts : tstate) : Prop :=
   | PIdle | PSkip | PLen _ | PLen2 _ => t_acc ts = []
   | PRes q | PChkF q _ | PLdY q _ => wf_reqI q /\ (q_ctx q = CTop -> t_acc ts = [])
   | PSrc q _ g => wf_reqI q /\ (q_ctx q = CTop -> t_acc ts = []) /\ N.of_nat (length g) < q_n q
-  | PSetF q _ g => wf_reqI q /\ (q_ctx q = CTop -> t_acc ts = []) /\ g = []
+  | PSetF q _ g => wf_reqI q /\ (q_ctx q = CTop -> t_acc ts = []) /\ N.of_nat (length g) < q_n q
   | PPub q _ g => wf_reqI q /\ (q_ctx q = CTop -> t_acc ts = []) /\ N.of_nat (length g) <= q_n q /\
                   (forall v, q_mode q = MSingle v -> length g = 1%nat)
   | PUnw q _ g => wf_reqI q /\ (q_ctx q = CTop -> t_acc ts = []) /\ N.of_nat (length g) < q_n q
@@ -525,28 +525,26 @@ Proof.
       destruct (q_mode q) eqn:M.
       * assert (g = []) as -> by (destruct Hq as (_ & _ & H1); rewrite (H1 _ M) in Hlt; destruct g; [reflexivity|cbn [length] in Hlt; rewrite Nat2N.inj_succ in Hlt; lia]).
         apply Hgo; try reflexivity; try discriminate; [split; reflexivity|].
-        unfold ipc_ok. cbn [set_pc t_pc t_acc]. refine (conj Hq (conj Hacc _)); first [assumption|reflexivity].
-      * destruct g as [|x0 g0].
-        -- apply Hgo; try reflexivity; try discriminate; [split; reflexivity|].
-           unfold ipc_ok. cbn [set_pc t_pc t_acc]. refine (conj Hq (conj Hacc _)); first [assumption|reflexivity].
-        -- apply Hgo; try reflexivity; try discriminate; [split; reflexivity|].
-           unfold ipc_ok. cbn [set_pc t_pc t_acc]. refine (conj Hq (conj Hacc (conj _ _))); [lia|]. intros v Mv. rewrite M in Mv. discriminate.
+        unfold ipc_ok. cbn [set_pc t_pc t_acc]. exact (conj Hq (conj Hacc Hlt)).
       * apply Hgo; try reflexivity; try discriminate; [split; reflexivity|].
-        unfold ipc_ok. cbn [set_pc t_pc t_acc]. refine (conj Hq (conj Hacc (conj _ _))); [lia|]. intros v Mv. rewrite M in Mv. discriminate.
+        unfold ipc_ok. cbn [set_pc t_pc t_acc]. exact (conj Hq (conj Hacc Hlt)).
+      * apply Hgo; try reflexivity; try discriminate; [split; reflexivity|].
+        unfold ipc_ok. cbn [set_pc t_pc t_acc]. exact (conj Hq (conj Hacc Hlt)).
 Qed.
 
-(** ** the source returned None to a single pull or to an empty chunk: the completed flag is raised *)
+(** ** the source returned None to a single pull or to a chunk pull (short chunk): the completed flag is raised *)
 
 Lemma iA_setf c t q b g :
   IInvA c -> In t L -> t_pc (c_pool c t) = PSetF q b g -> IInvA (step e c t).
 Proof.
   intros I Hin Hpc. rewrite (istep_setf e c t q b g Hpc).
   destruct (ipc_req c t q I) as [Hq Hacc]; [rewrite Hpc; reflexivity|].
-  destruct (a_wf c I t) as (Hok & _ & _). unfold ipc_ok in Hok. rewrite Hpc in Hok. destruct Hok as (_ & _ & Hg). subst g.
+  destruct (a_wf c I t) as (Hok & _ & _). unfold ipc_ok in Hok. rewrite Hpc in Hok. destruct Hok as (_ & _ & Hlt).
   pose proof (a_prot c I) as P.
-  pose proof (p_setf _ _ _ _ _ P t q b [] ltac:(unfold pcs_of; exact Hpc)) as Hex.
+  pose proof (p_setf _ _ _ _ _ P t q b g ltac:(unfold pcs_of; exact Hpc)) as Hex.
   destruct (q_mode q) eqn:M.
   - (* a single pull: it reports the end without publishing *)
+    assert (g = []) as -> by (destruct Hq as (_ & _ & H1); rewrite (H1 _ M) in Hlt; destruct g; [reflexivity|cbn [length] in Hlt; rewrite Nat2N.inj_succ in Hlt; lia]).
     apply iA_finish_end with (X := [(b, N.of_nat 0)]); try assumption.
     + rewrite Hpc. reflexivity.
     + unfold held. rewrite Hpc. reflexivity.
@@ -556,7 +554,7 @@ Proof.
   - apply iA_silent; try assumption; try discriminate.
     + unfold is_idle. rewrite Hpc. reflexivity.
     + rewrite Hpc. reflexivity.
-    + unfold ipc_ok. cbn [set_pc t_pc t_acc length]. refine (conj Hq (conj Hacc (conj _ _))); [destruct Hq; cbn; lia|].
+    + unfold ipc_ok. cbn [set_pc t_pc t_acc]. refine (conj Hq (conj Hacc (conj _ _))); [lia|].
       intros v Mv. rewrite M in Mv. discriminate.
     + cbn [with_f s_c s_y s_cur]. apply prot_retag; try (unfold pcs_of; rewrite Hpc; reflexivity); [exact P| |discriminate].
       intros; right; exact Hex.
@@ -564,7 +562,7 @@ Proof.
   - apply iA_silent; try assumption; try discriminate.
     + unfold is_idle. rewrite Hpc. reflexivity.
     + rewrite Hpc. reflexivity.
-    + unfold ipc_ok. cbn [set_pc t_pc t_acc length]. refine (conj Hq (conj Hacc (conj _ _))); [destruct Hq; cbn; lia|].
+    + unfold ipc_ok. cbn [set_pc t_pc t_acc]. refine (conj Hq (conj Hacc (conj _ _))); [lia|].
       intros v Mv. rewrite M in Mv. discriminate.
     + cbn [with_f s_c s_y s_cur]. apply prot_retag; try (unfold pcs_of; rewrite Hpc; reflexivity); [exact P| |discriminate].
       intros; right; exact Hex.
